@@ -105,6 +105,23 @@ def explicit_ode_def(d):
     return dict(d, events=[], odes=[(s, str(R.f[i])) for i, s in enumerate(d["states"])], derived=[])
 
 
+def per_process_ode_def(d, reverse=False):
+    """the same right-hand side entered as one explicit ODE entry per process and state touched (so a state touched by
+    several processes has several entries, which must add up whatever their order)"""
+    ent = []
+    for ev in d["events"]:
+        for typ, o, dst, mag in ev["trans"]:
+            term = "(%s)*(%s)" % (mag, ev["rate"])
+            if typ in ("T", "D"):
+                ent.append((o, "-" + term))
+            if typ in ("T", "B"):
+                ent.append((dst, term))
+    ent += [tuple(e) for e in d["odes"]]
+    if reverse:
+        ent.reverse()
+    return dict(d, events=[], odes=ent)
+
+
 def job(args):
     name, d, vs, seed = args
     out = {"name": name, "viol": [], "built": 0, "compared": 0}
@@ -187,20 +204,25 @@ def job(args):
                         break
             except Exception as e:
                 out["viol"].append({"what": "grow-raised", "variant": {"routes": rts, "order": order}, "error": "%s: %s" % (type(e).__name__, str(e)[:200])})
-    # explicit-ODE form: only the ODE is compared
-    try:
-        m, _ = build.build(explicit_ode_def(d))
+    # explicit-ODE forms: only the ODE is compared.  One equation per state; one entry per process and state touched, given
+    # to the constructor in both orders and added one by one with add_ode
+    forms = [("one-equation-per-state", explicit_ode_def(d)), ("one-entry-per-process", per_process_ode_def(d)),
+             ("one-entry-per-process-reversed", per_process_ode_def(d, reverse=True)),
+             ("one-entry-per-process-added-incrementally", dict(per_process_ode_def(d), odes_incremental=True))]
+    for fname, dd in forms:
+      try:
+        m, _ = build.build(dd)
         out["built"] += 1
         for (x, t, th), b in zip(pts, base_vals):
             m.parameters = list(th)
             if not np.allclose(np.asarray(m.ode(x, t), float).ravel(), b[0], rtol=1e-10, atol=1e-12):
-                out["viol"].append({"what": "explicit-ode-form-differs", "point": [x, t, th]})
+                out["viol"].append({"what": "explicit-ode-form-differs", "form": fname, "point": [x, t, th]})
                 break
             if not np.allclose(np.asarray(m.jacobian(x, t), float).reshape(ns, ns), b[1], rtol=1e-10, atol=1e-12):
-                out["viol"].append({"what": "explicit-ode-form-jacobian-differs", "point": [x, t, th]})
+                out["viol"].append({"what": "explicit-ode-form-jacobian-differs", "form": fname, "point": [x, t, th]})
                 break
-    except Exception as e:
-        out["viol"].append({"what": "explicit-ode-form-raised", "error": "%s: %s" % (type(e).__name__, e)})
+      except Exception as e:
+        out["viol"].append({"what": "explicit-ode-form-raised", "form": fname, "error": "%s: %s" % (type(e).__name__, e)})
     return out
 
 
@@ -233,7 +255,8 @@ def main(argv=None):
                 "terms, range-style states, derived parameter): every assignment of an API route to each process (Event object, "
                 "unlisted single Transition, rate carried by member k, bare Transition in event=, legacy transition= / birth_death= "
                 "with births by destination and by origin) in given and reversed order, every subset added incrementally with "
-                "add_*, every ordering, every state/parameter declaration style, the explicit-ODE form; each variant's "
+                "add_*, every ordering, every state/parameter declaration style, the explicit-ODE forms (one equation per state; one entry per process "
+                "and state touched, in both orders and added one by one); each variant's "
                 "get_ode_eqn must equal the all-Event variant's symbolically and ode/jacobian/grad/eventRateVector/vMat "
                 "(modulo the known event permutation) numerically at 3 points. distinct = distinct variants" % len(names),
         "states": nv, "transitions": built, "traces_validated_against_impl": built,
